@@ -166,7 +166,7 @@ CHECKS = {
                 'clause of completeness of the resolution stage: the nested saturation loop forms every pair (same growing '
                 'list in both loops, diagonal guard, resolvents rejoin the list) and no assignment in the inner loop rebinds the outer '
                 'loop element on a path that reads it again. The stage lemmas are schema-checked under C10. Equivalence of each normal '
-                'form, proof reconstruction and "declines only when contingent" are data-dependent and are NOT decided. (5) Stage contracts, as inductive steps: to_conj_form (12 returning paths), propag_neg (7) and to_cnf (6) return a form with proofs of both implications between the input and the form given that their recursive calls do (negation-flag flips followed, run-time matching transitivity decided on terms); build_proof_from_hint returns the resolvent with a proof of CONJ -> resolvent in each of the four emptiness cases given its parents do; the literal numbering of to_clauses is inverted by id_to_metavar. These are the contracts clause (1) assumes of the stages; to_clauses (loops over run-time lengths), simplify_clause and merge_clauses stay assumptions.',
+                'form, proof reconstruction and "declines only when contingent" are data-dependent and are NOT decided. (5) Stage contracts, as inductive steps: to_conj_form (12 returning paths), propag_neg (7) and to_cnf (6) return a form with proofs of both implications between the input and the form given that their recursive calls do (negation-flag flips followed, run-time matching transitivity decided on terms); build_proof_from_hint returns the resolvent with a proof of CONJ -> resolvent in each of the four emptiness cases given its parents do; the literal numbering of to_clauses is inverted by id_to_metavar. to_clauses is decided for left operands of 1 to 4 clauses / literals by unrolling its re-association loop in the syntax tree (bounded: longer operands run the same body more often and are not decided). These are the contracts clause (1) assumes of the stages; simplify_clause and merge_clauses stay assumptions.',
         'note': 'Trusted: python ast; the stage contracts as documented in tautology.py. Four clauses; the decision-procedure property as a whole is out of reach of static analysis.',
         'design_ref': 'DESIGN.md section 3, C09',
     },
